@@ -80,19 +80,6 @@ TracePurge == /\ IsEvent("Purge")
               /\ m' = PurgeSpec(m)
               /\ UNCHANGED <<lock, Hz, last>>
 
-\* a space under several ceiling elements of different thickness: the code takes the net height from the first one it
-\* finds (a documented simplification, recorded as a known finding: the indicators then depend on the order of the walls)
-ThickOfWall(x, w) == IF Has(x.wallcons, w.cons) THEN x.wallcons[IdxOf(x.wallcons, w.cons)].thick ELSE 0
-CeilingsOf(x, sid) == { i \in DOMAIN x.walls : \/ (x.walls[i].tilt = "TOP" /\ x.walls[i].space = sid)
-                                                \/ (x.walls[i].tilt = "BOTTOM" /\ x.walls[i].next = sid) }
-SeveralCeilings(x) == \E s \in DOMAIN x.spaces : \E i, j \in CeilingsOf(x, x.spaces[s].id) :
-                         ThickOfWall(x, x.walls[i]) # ThickOfWall(x, x.walls[j])
-
-\* a space with several ground floor slabs of different area: the exposed perimeter and characteristic dimension are
-\* taken from the first one (the code logs a warning; known finding)
-SlabsOf(x, sid) == { i \in DOMAIN x.walls : x.walls[i].space = sid /\ x.walls[i].tilt = "BOTTOM" /\ x.walls[i].bounds = "GROUND" }
-SeveralSlabs(x) == \E s \in DOMAIN x.spaces : \E i, j \in SlabsOf(x, x.spaces[s].id) : x.walls[i].area # x.walls[j].area
-
 Headline(e) == <<e.glob.aref, e.glob.vgross, e.glob.vnet, e.k.K, e.n50.n50, e.n50.n50ref, e.q.q, e.q.Q>>
 Sane(x) == LinksClosed(x) /\ AllUnique(x)
 
